@@ -32,6 +32,12 @@ ASSUMPTIONS = ['scheduling points: every non-thread-local bytecode instruction o
                'by the complete <=2-preemption exploration; a short free-running pass is reported as a diagnostic only']
 
 KINDS = ['hit', 'ctx', '404', '405', 'fall', 'exc', 'redir', 'hit2', 'app2', 'q405', 'qpost']
+# further kinds, explored in the pairs listed in EXTRA_PAIRS: star = a route whose `*` binding is left empty and
+# whose endpoint appends to the list it was given; e404h / e405j = error responses negotiated for different Accept
+# headers.  For these pairs every execution is preceded by one sequential request of the first thread's kind.
+EXTRA_KINDS = ['star', 'e404h', 'e405j']
+EXTRA_PAIRS = [('star', 'star'), ('star', 'hit'), ('star', '404'), ('e404h', 'e405j'), ('e405j', 'e404h'),
+               ('e404h', 'e404h'), ('e404h', '404'), ('e405j', 'exc'), ('e405j', 'q405')]
 # app2: served by a second Application; q405/qpost: a path with a GET-only and a POST-only route
 
 
@@ -95,7 +101,10 @@ class World(object):
 
         def second_q(val, x, request):
             return Response('posted|%s|%s|%s' % (val, x, request.headers.get('X-Tok')))
-        self.harness_funcs = [Stamp.request, PerReq.request, PerReq.endpoint, ep, ep_ctx, render, nb, second, boom, second_q]
+        def docs(rest, val):
+            rest.append('index.%s' % val)
+            return Response('docs|' + '/'.join(rest))
+        self.harness_funcs = [docs, Stamp.request, PerReq.request, PerReq.endpoint, ep, ep_ctx, render, nb, second, boom, second_q]
         from werkzeug.wrappers import Request
 
         class RecordingRequest(Request):
@@ -110,7 +119,7 @@ class World(object):
             request_type = RecordingRequest
         self.app = App([GET('/a/<x>', ep), ('/b/<x>/', ep), ('/c/<x>', ep_ctx, render), ('/n', nb), ('/n', second),
                                 ('/boom', boom), POST('/p', lambda: Response('p')), ('/d/<x:int>', ep),
-                                GET('/q/<x>', ep), POST('/q/<x>', second_q)],
+                                GET('/q/<x>', ep), POST('/q/<x>', second_q), ('/docs/<rest*>', docs)],
                                middlewares=[Stamp(), PerReq()])
 
         self.app2 = App([GET('/z/<x>', ep)], middlewares=[Stamp(), PerReq()])
@@ -118,6 +127,12 @@ class World(object):
     def request_for(self, kind, tok):
         q = 'v=' + tok
         h = {'X-Tok': tok}
+        if kind == 'star':
+            return ('/docs', 'GET', q, h)
+        if kind == 'e404h':
+            return ('/zz/' + tok, 'GET', q, dict(h, Accept='text/html'))
+        if kind == 'e405j':
+            return ('/p', 'GET', q, dict(h, Accept='application/json'))
         return {'hit': ('/a/' + tok, 'GET'), 'ctx': ('/c/' + tok, 'GET'), '404': ('/zz/' + tok, 'GET'), '405': ('/p', 'GET'),
                 'fall': ('/n', 'GET'), 'exc': ('/boom', 'GET'), 'redir': ('/b/' + tok, 'GET'),
                 'hit2': ('/d/' + str(len(tok) * 7 + ord(tok[-1])), 'GET'), 'app2': ('/z/' + tok, 'GET'),
@@ -127,7 +142,7 @@ class World(object):
         path, method, q, h = self.request_for(kind, tok)
         res = wsgi.call(self.app2 if kind == 'app2' else self.app, path, method, query=q, headers=h)
         return (res.status, res.body, res.header('Location'), res.header('X-Stamp'), res.header('X-Ep'),
-                res.header('Allow'), repr(res.raised) if res.raised else None)
+                res.header('Allow'), repr(res.raised) if res.raised else None, res.header('Content-Type'))
 
 
 def setup_world():
@@ -138,7 +153,7 @@ def setup_world():
     def pred(fn):
         return fn.startswith(repo) or fn.startswith('<sinter generated') or fn == here
     # warm up every request kind (lazy imports, cached properties) before collecting code objects
-    for k in KINDS:
+    for k in KINDS + EXTRA_KINDS:
         for t in ('w1', 'w2'):
             w.serve(k, t)
     codes = sched.collect_codes(pred)
@@ -150,6 +165,8 @@ def combos(tier):
     """(thread kinds tuple, bound)"""
     out = []
     for pair in itertools.combinations_with_replacement(KINDS, 2):
+        out.append((pair, 1))
+    for pair in EXTRA_PAIRS:
         out.append((pair, 1))
     triples = [('hit', 'ctx', '404'), ('hit', 'hit', 'redir'), ('fall', 'exc', '405'), ('hit', 'hit2', 'fall'),
                ('redir', 'ctx', 'exc')]
@@ -182,6 +199,19 @@ def work_items(tier):
         else:
             items.append((kinds, bound, None))
     return items
+
+
+def history_for(w, kinds):
+    if not any(k in EXTRA_KINDS for k in kinds):
+        return None
+
+    def before():
+        w.serve(kinds[0], 'h0q')
+        w.all_ids.update(i for i in w.ids if i is not None)
+        del w.ids[:]
+        w.all_guids.update(w.guids)
+        del w.guids[:]
+    return before
 
 
 def explore_combo(acc, w, kinds, bound, part):
@@ -243,7 +273,8 @@ def explore_combo(acc, w, kinds, bound, part):
     del w.guids[:]
     gc.disable()
     try:
-        st = sched.explore(bodies, bound, on_exec, first_choices=first_choices, should_stop=deadline_passed)
+        st = sched.explore(bodies, bound, on_exec, first_choices=first_choices, should_stop=deadline_passed,
+                           before=history_for(w, kinds))
     finally:
         gc.enable()
     acc.outcome('%s|bound%d' % (label if len(kinds) > 2 else 'pair', bound), st['executions'])
@@ -328,6 +359,7 @@ def finish(tier, merged, results):
     if not merged['violations'] and merged['extra'].get('nontrivial', 0) < 100:
         raise common.InternalError('vacuous: too few non-trivial schedules')
     return {'bounds': {'request_kinds': KINDS, 'pairs': 'all %d unordered pairs' % (len(KINDS) * (len(KINDS) + 1) // 2),
+                       'extra_kinds': EXTRA_KINDS, 'extra_pairs_with_history': ['+'.join(p) for p in EXTRA_PAIRS],
                        'pair_preemption_bound': 1, 'pairs_at_preemption_bound_2': [] if tier == 'quick' else ['+'.join(p) for p in B2_PAIRS], 'triples': 5, 'triple_preemption_bound': 1,
                        'quadruples': 2, 'quadruple_preemption_bound': 0, 'granularity': 'bytecode instruction'},
             'distinct_nontrivial': merged['extra'].get('nontrivial', 0),
@@ -350,6 +382,10 @@ def replay(case):
     seq = [World().serve(k, t) for k, t in zip(kinds, toks)]
     bodies = [(lambda k=k, t=t: w.serve(k, t)) for k, t in zip(kinds, toks)]
     del w.ids[:]
+    hist = history_for(w, kinds)
+    if hist is not None:
+        hist()
+        del w.ids[:]
     run, results = sched.run_once(bodies, case['choices'], bound=case.get('bound', 1))
     ids = list(w.ids)
     for i, (r, s) in enumerate(zip(results, seq)):
